@@ -551,11 +551,18 @@ func (l *loopState) notifySteps() { //nolint:gocognit
 
 		// Resolve any expressions in the input data.
 		// untypedInputData stores the resolved data
-		untypedInputData, err := l.resolveExpressions(inputData, l.data)
+		untypedInputData, err := l.safeResolveExpressions(inputData, l.data)
 		if err != nil {
-			// An error here often indicates a locking issue in a step provider. This could be caused
-			// by the lock not being held when the output was marked resolved.
-			panic(fmt.Errorf("cannot resolve expressions for %s (%w)", nodeID, err))
+			// The expressions cannot be evaluated with the data the steps produced (for example
+			// a failing conversion function, an index out of range or a missing optional value).
+			// End the workflow with an error instead of crashing the process.
+			l.logger.Errorf("Cannot resolve expressions for %s (%v)", nodeID, err)
+			select {
+			case l.recentErrors <- fmt.Errorf("cannot resolve expressions for %s (%w)", nodeID, err):
+			default:
+			}
+			l.cancel()
+			return
 		}
 
 		// This switch checks to see if it's a node that needs to be run.
@@ -693,6 +700,18 @@ func (l *loopState) checkForDeadlocks(retries int, wg *sync.WaitGroup) {
 			}()
 		}
 	}
+}
+
+// safeResolveExpressions calls resolveExpressions and turns a panic raised while evaluating an
+// expression or a function (for example an integer division by zero) into an error.
+func (l *loopState) safeResolveExpressions(inputData any, dataModel any) (result any, err error) {
+	defer func() {
+		if r := recover(); r != nil {
+			result = nil
+			err = fmt.Errorf("panic while resolving expressions (%v)", r)
+		}
+	}()
+	return l.resolveExpressions(inputData, dataModel)
 }
 
 // resolveExpressions takes an inputData value potentially containing expressions and a dataModel containing data
